@@ -605,7 +605,7 @@ func runCase(cs caseSpec, scratch string) (lib.Case, *lib.ImplFailure) {
 	} else {
 		outs = append(outs, "handover:ahead")
 	}
-	return lib.Case{Coq: lib.App("mkC15", engCoq(cs.Engine), lib.List(xs)), JSON: js,
+	return lib.Case{Coq: lib.App("KScript", lib.App("mkC15", engCoq(cs.Engine), lib.List(xs))), JSON: js,
 		Kind: cs.Engine + "/" + cs.Kind, Trivial: cs.Stop == 0, Outcomes: outs}, nil
 }
 
@@ -720,6 +720,20 @@ func (m *gaugeMetrics) EmitGauge(name string, v interface{}, t ...metrics.T) err
 	return nil
 }
 
+// campObs is what a Campaign child observed, in the vocabulary of the callback model (Model/Handover.v nstep).
+type campObsT struct {
+	Variant   string   `json:"variant"`
+	Version   uint64   `json:"version"`    // gauge leader.election.initial.version = what SetCurrentRevision got
+	MaxRev    uint64   `json:"max_stored"` // largest stored revision when the election began
+	SyncCheck bool     `json:"follower_read_in_flight"`
+	LateRev   uint64   `json:"late_answer"`    // revision the old leader answered after the take-over (0: none arrived)
+	Early     []uint64 `json:"early_requests"` // revisions of the two requests admitted the moment IsLeader() turned true
+	Later     []uint64 `json:"later_requests"`
+	Committed uint64   `json:"committed_at_end"`
+}
+
+var campObs campObsT
+
 // campaignCase: an old leader (elected through the lock as above) writes the F1 history on memkv and
 // releases the lock the way client-go's release() intends to (Get, then Update to an empty holder);
 // a second Backend then runs the REAL Campaign (client-go elector, 8 s lease): it acquires at once
@@ -739,6 +753,7 @@ func campaignCase(scratch string, hist []hop, tsoOutage bool, followerRead bool,
 	// /status over HTTP), and one more follower read is in flight — past its IsLeader() check, waiting for the old
 	// leader, which has become unreachable — while B wins the election
 	id1 := "A"
+	var lateAnswered uint64
 	var hang int32
 	arrived := make(chan struct{}, 8)
 	release := make(chan struct{})
@@ -756,7 +771,9 @@ func campaignCase(scratch string, hist []hop, tsoOutage bool, followerRead bool,
 				if lateAnswer {
 					// variant: the old leader's answer is merely late (it arrives after B's take-over)
 					time.Sleep(600 * time.Millisecond)
-					_ = json.NewEncoder(w).Encode(revision.LeaderRevision{Revision: p1.b.GetCurrentRevision()})
+					rv := p1.b.GetCurrentRevision()
+					atomic.StoreUint64(&lateAnswered, rv)
+					_ = json.NewEncoder(w).Encode(revision.LeaderRevision{Revision: rv})
 					return
 				}
 				select {
@@ -894,7 +911,10 @@ func campaignCase(scratch string, hist []hop, tsoOutage bool, followerRead bool,
 	v := p2.b.GetCurrentRevision() - 2 // two requests have been served since SetCurrentRevision(version)
 	if followerRead {
 		select {
-		case <-readDone: // on the unchanged tree: an error (the leader did not answer within the syncer's time-out)
+		case rerr := <-readDone: // lost answer: an error (time-out of the syncer); late answer: nil, the answer was installed
+			if rerr == nil {
+				campObs.LateRev = atomic.LoadUint64(&lateAnswered)
+			}
 		case <-time.After(5 * time.Second):
 			return &lib.ImplFailure{What: "campaign: the in-flight follower read did not return"}
 		}
@@ -920,6 +940,8 @@ func campaignCase(scratch string, hist []hop, tsoOutage bool, followerRead bool,
 	if !le.IsLeader() {
 		return &lib.ImplFailure{What: "campaign: IsLeader() is false after OnStartedLeading", Case: js}
 	}
+	campObs.Version, campObs.MaxRev, campObs.SyncCheck = gv, maxRev, followerRead
+	campObs.Early = []uint64{ea.updRev, ea.creRev}
 	p2.deal, p2.committed = v+2, v+2
 	pre := r.list(p2)
 	if len(pre) != len(liveKeys(kv)) {
@@ -930,11 +952,35 @@ func campaignCase(scratch string, hist []hop, tsoOutage bool, followerRead bool,
 		if c != "HOk" || h <= maxRev {
 			return &lib.ImplFailure{What: fmt.Sprintf("campaign: guarded update of %s with its true revision -> %s, revision %d (stored maximum %d)", kvx.K, c, h, maxRev), Case: js}
 		}
+		campObs.Later = append(campObs.Later, h)
 	}
 	if r.fail != "" {
 		return &lib.ImplFailure{What: "campaign: " + r.fail, Case: js}
 	}
+	campObs.Committed = p2.b.GetCurrentRevision()
 	return nil
+}
+
+// campCoq renders a Campaign child's observations as a case of the callback model.
+func campCoq(o campObsT) string {
+	var labels, handed []string
+	add := func(l, h string) { labels, handed = append(labels, l), append(handed, h) }
+	if o.SyncCheck {
+		add("NSyncCheck", lib.None())
+	}
+	add(lib.App("NParse", lib.N(o.Version)), lib.None())
+	add("NInstall", lib.None())
+	add("NFlag", lib.None())
+	for _, r := range o.Early {
+		add("NRequest", lib.Some(lib.N(r)))
+	}
+	if o.LateRev != 0 {
+		add(lib.App("NSyncInstall", lib.N(o.LateRev)), lib.None())
+	}
+	for _, r := range o.Later {
+		add("NRequest", lib.Some(lib.N(r)))
+	}
+	return lib.App("KCampaign", lib.App("mkCamp", lib.N(o.Version), lib.N(o.MaxRev), lib.List(labels), lib.List(handed), lib.N(o.Committed)))
 }
 
 // f1Witness: one success, ten failed creates, one success (finding C15-F1's history)
@@ -949,7 +995,7 @@ func f1Witness() []hop {
 // runCampaignChild runs campaignCase in a child process: Campaign() never returns, its elector keeps
 // renewing, and OnStoppedLeading ends the process through klog.Fatal — the child prints its verdict and
 // exits at once without ever cancelling the elector; the parent only reads the verdict.
-func runCampaignChild(scratch string, tsoOutage bool, followerRead bool, lateAnswer bool) (string, *lib.ImplFailure) {
+func runCampaignChild(scratch string, tsoOutage bool, followerRead bool, lateAnswer bool) (string, *lib.ImplFailure, *campObsT) {
 	ctx, cancel := context.WithTimeout(context.Background(), 60*time.Second)
 	defer cancel()
 	cargs := []string{"-campaign-child", "-scratch", scratch}
@@ -967,19 +1013,20 @@ func runCampaignChild(scratch string, tsoOutage bool, followerRead bool, lateAns
 	out, err := cmd.Output()
 	i := bytes.LastIndex(out, []byte("CAMPAIGN-VERDICT "))
 	if i < 0 {
-		return "", &lib.ImplFailure{What: fmt.Sprintf("campaign: the child process running the real Campaign() ended without a verdict (%v): a panic, klog.Fatal (leader lost / invalid leader info) or a hang", err)}
+		return "", &lib.ImplFailure{What: fmt.Sprintf("campaign: the child process running the real Campaign() ended without a verdict (%v): a panic, klog.Fatal (leader lost / invalid leader info) or a hang", err)}, nil
 	}
 	var v struct {
 		OK   bool             `json:"ok"`
 		Fail *lib.ImplFailure `json:"fail"`
+		Obs  campObsT         `json:"obs"`
 	}
 	if jerr := json.Unmarshal(bytes.TrimSpace(out[i+len("CAMPAIGN-VERDICT "):]), &v); jerr != nil {
-		return "", &lib.ImplFailure{What: "campaign: unreadable verdict: " + jerr.Error()}
+		return "", &lib.ImplFailure{What: "campaign: unreadable verdict: " + jerr.Error()}, nil
 	}
 	if !v.OK {
-		return "", v.Fail
+		return "", v.Fail, nil
 	}
-	return "real leader.NewLeaderElection(...).Campaign() in a child process: acquired a released lock on memkv over a store with data; callback delayed at its gauge while a client polled IsLeader() and at once issued a guarded Update and a Create; version, IsLeader, List(0) and guarded updates checked", nil
+	return "real leader.NewLeaderElection(...).Campaign() in a child process: acquired a released lock on memkv over a store with data; callback delayed at its gauge while a client polled IsLeader() and at once issued a guarded Update and a Create; version, IsLeader, List(0) and guarded updates checked", nil, &v.Obs
 }
 
 func main() {
@@ -992,7 +1039,7 @@ func main() {
 	args := lib.ParseArgs()
 	if *child {
 		f := campaignCase(args.Scratch, f1Witness(), *childOutage, *childFollower, *childLate)
-		b, _ := json.Marshal(map[string]interface{}{"ok": f == nil, "fail": f})
+		b, _ := json.Marshal(map[string]interface{}{"ok": f == nil, "fail": f, "obs": campObs})
 		fmt.Printf("\nCAMPAIGN-VERDICT %s\n", b)
 		os.Stdout.Sync()
 		os.Exit(0)
@@ -1063,12 +1110,13 @@ func main() {
 	type cres struct {
 		s string
 		f *lib.ImplFailure
+		o *campObsT
 	}
 	ch1, ch2, ch3, ch4 := make(chan cres, 1), make(chan cres, 1), make(chan cres, 1), make(chan cres, 1)
-	go func() { s, f := runCampaignChild(args.Scratch, false, false, false); ch1 <- cres{s, f} }()
-	go func() { s, f := runCampaignChild(args.Scratch, true, false, false); ch2 <- cres{s, f} }()
-	go func() { s, f := runCampaignChild(args.Scratch, false, true, false); ch3 <- cres{s, f} }()
-	go func() { s, f := runCampaignChild(args.Scratch, false, true, true); ch4 <- cres{s, f} }()
+	go func() { s, f, o := runCampaignChild(args.Scratch, false, false, false); ch1 <- cres{s, f, o} }()
+	go func() { s, f, o := runCampaignChild(args.Scratch, true, false, false); ch2 <- cres{s, f, o} }()
+	go func() { s, f, o := runCampaignChild(args.Scratch, false, true, false); ch3 <- cres{s, f, o} }()
+	go func() { s, f, o := runCampaignChild(args.Scratch, false, true, true); ch4 <- cres{s, f, o} }()
 	campaign := ""
 	for k, ch := range []chan cres{ch1, ch2, ch3, ch4} {
 		c := <-ch
@@ -1082,11 +1130,14 @@ func main() {
 			campaign += label + "failed: " + c.f.What + "; "
 		} else {
 			campaign += label + c.s + "; "
+			c.o.Variant = []string{"plain", "tso-outage", "follower-read-lost", "follower-read-late"}[k]
+			cases = append(cases, lib.Case{Coq: campCoq(*c.o), JSON: c.o, Kind: "memkv/campaign-" + c.o.Variant,
+				Outcomes: []string{"campaign:" + c.o.Variant}})
 		}
 	}
 
 	header := "From Coq Require Import String.\nFrom KB Require Import Model.C15Cases.\n" + strings.Join(dictDefs, "\n")
-	w := lib.NewWriter(args, "C15", "c15", header, "c15_case", "c15_check", "c15_oracle", 120)
+	w := lib.NewWriter(args, "C15", "c15", header, "c15_any", "c15_any_check", "c15_any_oracle", 120)
 	for _, c := range cases {
 		w.Add(c)
 	}
@@ -1094,6 +1145,7 @@ func main() {
 		w.Fail(f)
 	}
 	w.Stats.Extra["campaign"] = campaign
+	w.Stats.Extra["invalid_cases"] = "validity (c15_validb) is part of the evaluated check c15_checkv: an invalid script case counts as a mismatch; 0 whenever mismatches = 0"
 	if err := w.Finish("one case = (engine, history, stop point): old leader elected through the real lock, history prefix, restart/fail-over, new leader elected through the real lock + Describe + parse + SetCurrentRevision, probes; distinct = SHA-256 of the Coq script with observations; non-trivial = at least one request before the hand-over"); err != nil {
 		fmt.Fprintln(os.Stderr, err)
 		os.Exit(2)
